@@ -3,7 +3,7 @@ from props import common as cm
 ID = 'C09'
 MODS = cm.MODS_CORE + ['contracts.c_math']
 FOCUS = 'range'
-FUNCS = [cm.P + n for n in ('generate_replacements', 'expand_arguments', 'expand_macro', 'begin_environment', 'parse_def_macro', 'parse', 'parser_work')] + ['yalafi.handlers.h_newcommand', 'yalafi.handlers.h_load_defs', 'yalafi.defs.Expandable.__init__.<locals>.check', 'yalafi.utils.filter_set_toks']
+FUNCS = [cm.P + n for n in ('expand_sequence', 'generate_replacements', 'expand_arguments', 'expand_macro', 'begin_environment', 'parse_def_macro', 'parse', 'parser_work')] + ['yalafi.handlers.h_newcommand', 'yalafi.handlers.h_load_defs', 'yalafi.defs.Expandable.__init__.<locals>.check', 'yalafi.utils.filter_set_toks']
 
 
 def SELECT(name):
